@@ -31,6 +31,33 @@ def check(model: Model, report: Report) -> None:
     report.rule("R18.1", "every self-recursive or work-queue function reachable from segment resolution carries a depth")
     report.assumptions += ["A5: documents are trees or cyclic graphs of dict/list; interpreter recursion limit is far above env.max_recursion_depth * frames per level"]
     report.not_decided += ["memory growth of the nondeterministic queue", "wall-clock bounds"]
+    report.rule("R18.6", "the bound is the configured one: max_recursion_depth is a positive integer class attribute and nothing in the package assigns, clamps or shadows it")
+    env = model.cls("environment.JSONPathEnvironment")
+    dflt = env.attrs.get("max_recursion_depth")
+    if isinstance(dflt, ast.Constant) and isinstance(dflt.value, int) and not isinstance(dflt.value, bool) and dflt.value >= 1:
+        report.ok("R18.6", env.qualname, f"default limit {dflt.value}")
+    else:
+        report.fail("R18.6", env.qualname, "limit-default", f"JSONPathEnvironment.max_recursion_depth defaults to {ast.unparse(dflt) if dflt is not None else None}, expected a positive integer constant")
+    n_writes = 0
+    for fi in model.functions.values():
+        if fi.module.short.startswith("utils."):
+            continue
+        for n in walk_own(fi.node):
+            tg = []
+            if isinstance(n, ast.Assign):
+                tg = n.targets
+            elif isinstance(n, (ast.AnnAssign, ast.AugAssign)):
+                tg = [n.target]
+            for t in tg:
+                for x in ast.walk(t):
+                    if isinstance(x, ast.Attribute) and x.attr == "max_recursion_depth":
+                        n_writes += 1
+                        report.fail("R18.6", fi.qualname, "limit-overwritten", f"{ast.unparse(x)} is assigned in {fi.qualname}: the limit applied is then not the one the user configured on the environment (class attribute or instance attribute set by the user)", file=fi.file, line=n.lineno)
+            if isinstance(n, ast.Call) and isinstance(n.func, ast.Name) and n.func.id == "setattr" and len(n.args) >= 2 and isinstance(n.args[1], ast.Constant) and n.args[1].value == "max_recursion_depth":
+                n_writes += 1
+                report.fail("R18.6", fi.qualname, "limit-overwritten", "max_recursion_depth is set through setattr", file=fi.file, line=n.lineno)
+    if not n_writes:
+        report.ok("R18.6", "<package>", "max_recursion_depth is never assigned inside the package")
     _segrules.check_visit(model, report, "R18.2", "R18.3")
     _segrules.check_descendant_nesting(model, report, "R18.4")
     _segrules.check_nondet_visit(model, report, None, "R18.3", None)
